@@ -24,15 +24,17 @@ RunPre(e, b) == IF ~CellsDisjoint(b.recs) THEN "same_cell_in_several_bams_outsid
                 ELSE IF \E k \in DOMAIN b.recs : Qualifies(b.recs[k], e.cfg) /\ ~InPrecondition(b.recs[k], e.cfg, LenIn(b, b.recs[k].contig))
                 THEN "record_outside_precondition_site_beyond_max_fragment_size_or_contig" ELSE "ok"
 
+(* generate_commands(skip_contigs=..): no job is planned for those contigs, their records are not part of the matrix *)
+Kept(e, b) == SelectSeq(b.recs, LAMBDA r : r.contig \notin SeqSet(e.cfg.skip))
 RunVerdict(e, b, r0) ==
     LET lenOf(cn) == LenIn(b, cn)
-        exp == ExpectedMatrixOver(b.recs, e.cfg, lenOf)
+        exp == ExpectedMatrixOver(Kept(e, b), e.cfg, lenOf)
         got == GotMatrix(e)
         cells == DOMAIN exp \cup DOMAIN got
     IN IF e.raised # "" THEN "Inv_C12_Total_NoRaise"
        ELSE IF \E cell \in cells : At(got, cell) > At(exp, cell) THEN "Inv_C12_Matrix_overcount"
        ELSE IF \E cell \in cells : At(got, cell) < At(exp, cell) THEN "Inv_C12_Matrix_undercount"
-       ELSE IF TotalOf(got) # ExpectedTotalOver(b.recs, e.cfg) THEN "Inv_C12_Total"
+       ELSE IF TotalOf(got) # ExpectedTotalOver(Kept(e, b), e.cfg) THEN "Inv_C12_Total"
        ELSE IF r0.group = e.group /\ r0.raised = "" /\ SeqSet(r0.counts) # SeqSet(e.counts) THEN "Inv_C12_Invariant"
        ELSE "ok"
 
